@@ -15,6 +15,7 @@ func init() {
 			"NOT decided: equality of focused and filtered-unfocused output on inputs (the lazily filled exposure data make this a runtime question under --exposure)."
 		rules.FocusFilter(p, r, "C16")
 		rules.GuardedRowConstruction(p, r, "C16-rows")
+		rules.CLIExitChain(p, r, "C16-exit")
 	})
 	register("C17", "connectivity is per workload, independent of replicas and controller kind", func(p *core.Program, r *core.Report) {
 		r.Explanation = "Structural necessary conditions, decided for all inputs and re-expressions at once: " +
